@@ -10,6 +10,7 @@ CONSTANTS
   LoopForever = TRUE
   FastPathChecksAtomicQ = TRUE
   Sleeper = FALSE
+  SRun = FALSE
 INVARIANT Safety
 PROPERTIES AcceptedLeadsToDispatch SentLeadsToSeen
 CHECK_DEADLOCK FALSE
